@@ -120,6 +120,18 @@ type Frag struct {
 	Type    codec.Command
 	Ok      bool // for mset
 	Done    bool // is the current frag completed
+
+	Redirects int  // number of MOVED/ASK redirects followed so far
+	Swallow   bool // the reply is consumed by the proxy itself (ASKING)
+}
+
+// NewAskingFrag builds the ASKING command that must precede a request following an ASK
+// redirect; its reply is swallowed.
+func NewAskingFrag() *Frag {
+	f := FragPool.Get()
+	f.Req = append(f.Req, constant.ReqAsking...)
+	f.Swallow = true
+	return f
 }
 
 // Fail completes the request this fragment belongs to with err, exactly like an error reply
